@@ -457,8 +457,10 @@ pub struct AbsInput<'a> {
     /// snapshot of the sandbox in which the reference save ran, and the reference target in it
     pub reftree: &'a Snap,
     pub ref_target: &'a [String],
-    /// the real target (for absolute glif paths, which land at the same place in both saves)
+    /// the real sandbox root (absolute glif paths are recognised by this prefix) and what the
+    /// real sandbox held right after the reference save (an absolute path lands there in both saves)
     pub sandbox: &'a Path,
+    pub abs_tree: &'a Snap,
 }
 
 fn ref_content(a: &AbsInput, comps: &[String]) -> String {
@@ -521,7 +523,14 @@ pub fn abstract_font(a: &AbsInput) -> String {
                 let mut base = a.ref_target.to_vec();
                 base = lexical(&base, l.path(), a.sandbox);
                 let at = lexical(&base, gp, a.sandbox);
-                format!("(Some {})", ref_content(a, &at))
+                if gp.is_absolute() {
+                    match a.abs_tree.get(&at.join("/")) {
+                        Some(Some(b)) => format!("(Some {})", gcontent(b)),
+                        _ => "(Some (C 0 false))".to_string(),
+                    }
+                } else {
+                    format!("(Some {})", ref_content(a, &at))
+                }
             };
             glifs.push(format!("Glif {} {}", grel(gp, a.sandbox), body));
         }
